@@ -2,6 +2,7 @@ import PycsepVerif.Proto
 import PycsepVerif.Model.PoissonLL
 import PycsepVerif.Model.PoissonTest
 import PycsepVerif.Model.PoissonSession
+import PycsepVerif.Model.PoissonStream
 /-! driver ops of C05 (Float instance of Model/PoissonLL). Floats travel as IEEE-754 bit patterns.
     `c05_stat <0|1> <rates> <counts>`, `c05_test <L|CL|S|M> <data rows ;-separated> <count rows>`,
     `c05_sim <L|CL|S|M> <data rows> <simulated counts (1-D)>`, `c05_marg <data rows>`, `c05_cells <data rows> <count rows>` (poisson_spatial_likelihood, list of bit patterns),
@@ -62,6 +63,10 @@ def parseOp? (t : String) : Option (PoissonSession.Op Float) :=
       let e ← parseList? parseRat? edges
       some (.newForecast d e)
   | ["S", k, c] => do some (.scale (← k.toNat?) (← parseFloat? c))
+  -- array-valued factor: A|k|C|w (per cell, shape (n,1)), A|k|M|w (per magnitude, (m,) or (1,m)), A|k|B|rows (per bin, (n,m))
+  | ["A", k, "C", w] => do some (.scaleBy (← k.toNat?) (.perCell (← parseList? parseFloat? w)))
+  | ["A", k, "M", w] => do some (.scaleBy (← k.toNat?) (.perMag (← parseList? parseFloat? w)))
+  | ["A", k, "B", w] => do some (.scaleBy (← k.toNat?) (.perBin (← parseList2? parseFloat? w)))
   | ["E", edges] => do some (.setEdges (← parseList? parseRat? edges))
   | ["M", c, e, m] => do some (.editMag (← c.toNat?) (← e.toNat?) (← parseRat? m))
   | ["T", m, k, c] => do some (.test (← parseMode? m) (← k.toNat?) (← c.toNat?))
@@ -114,7 +119,7 @@ def handle : List String → Option String
       | some rs, some cs, some ds, some k =>
         (match parseRows? k rows with
          | some rows => if rs.length ≠ cs.length then "bad-op" else
-             showResult (PoissonTest.run floatToRat (u == "1") (n == "1") rs cs ds rows)
+             showResult (PoissonTest.runN floatToRat (u == "1") (n == "1") rs cs ds k rows)
          | none => "bad-op")
       | _, _, _, _ => "bad-op")
   -- c05_public <L|CL|S|M> <nbin> <data rows (bits)> <events c:b,…> <poisson draws|-> <nsim> <rows> : a public test on a
@@ -124,12 +129,31 @@ def handle : List String → Option String
                   k.toNat? with
       | some m, some nb, some d, some evs, some ds, some k =>
         (match parseRows? k rows with
-         | some rows => (match PoissonTest.publicTest floatToRat m d nb evs ds rows with
+         | some rows => (match PoissonTest.publicTestN floatToRat m d nb evs ds k rows with
              | .error .outside => "error-outside"
              | .error .belowMin => "error-below-min"
              | .ok r => showResult r)
          | none => "bad-op")
       | _, _, _, _, _, _ => "bad-op")
+  -- c05_stream <L|CL|S|M> <nbin> <data rows (bits)> <events c:b,…> <poisson draws|-> <nsim> <uniform stream (bits)> : a public
+  --         test on the DEFAULT random path (random_numbers=None): the model cuts the stream into one block per simulation
+  | ["c05_stream", m, nb, d, evs, ds, k, st] =>
+      some (match parseMode? m, nb.toNat?, parseList2? parseFloat? d, parseList? parseEv? evs, parseList? parseNat? ds,
+                  k.toNat?, parseList? parseBitsRat? st with
+      | some m, some nb, some d, some evs, some ds, some k, some st =>
+        (match PoissonTest.publicTestStream floatToRat m d nb evs ds k st with
+         | .error .outside => "error-outside"
+         | .error .belowMin => "error-below-min"
+         | .ok r => showResult r)
+      | _, _, _, _, _, _, _ => "bad-op")
+  -- c05_ter <data rows (bits)> <events c:b,…> : forecast.get_rates / target_event_rates(scale=False): the rate of every
+  --         event's own (cell, magnitude bin), in catalog order; `index-error` when an index is outside the array
+  | ["c05_ter", d, evs] => some (match parseList2? parseFloat? d, parseList? parseEv? evs with
+      | some d, some evs =>
+        (match PoissonTest.targetEventRates d (evs.map (fun e => (e.cell.getD d.length, e.bin.getD (d.headD []).length))) with
+         | some rs => showList showFloat rs
+         | none => "index-error")
+      | _, _ => "bad-op")
   -- c05_pll <rates (bits)> <counts> : poisson_log_likelihood entry by entry
   | ["c05_pll", rs, cs] => some (match parseList? parseFloat? rs, parseList? parseNat? cs with
       | some rs, some cs => if rs.length ≠ cs.length then "bad-op" else
